@@ -773,6 +773,19 @@ func runCase(line string, st *vh.Stats) string {
 	}
 	w := newWorld(head)
 	borrowed = nil
+	// applied entries are matched to waiting requests by (clientID, seriesID, key): the keys handed out
+	// by different incarnations of one replica in this process, and by different replicas, must differ
+	{
+		seen := map[uint64]string{}
+		for inc, who := range [][2]uint64{{1, 1}, {1, 1}, {1, 2}} {
+			for _, k := range dragonboat.VerifC12FreshProposalKeys(who[0], who[1], w.ps, 7, 3) {
+				if prev, dup := seen[k]; dup {
+					st.Violation(id, fmt.Sprintf("proposal key %d handed out twice: by %s and by incarnation %d (shard %d replica %d)", k, prev, inc, who[0], who[1]))
+				}
+				seen[k] = fmt.Sprintf("incarnation %d (shard %d replica %d)", inc, who[0], who[1])
+			}
+		}
+	}
 	var out []string
 	kinds := map[string]bool{}
 	panicked := false
@@ -872,7 +885,7 @@ func main() {
 			w.Printf("%d %s\n", i, genCase(r, a.Tier == "thorough"))
 		}
 		// live NodeHost cases: racing clients, tiny timeouts, StopShard / Close in the middle
-		nl := 2
+		nl := 3
 		if a.Tier == "thorough" {
 			nl = 24
 		}
@@ -880,7 +893,7 @@ func main() {
 			nl = 0
 		}
 		for i := 0; i < nl; i++ {
-			w.Printf("L%d LIVE seed=%d nc=%d clients=%d ms=%d stop=%d\n", i, r.U64()%100000, i%2, 3+r.Intn(4), 60+r.Intn(120), (i/2)%2)
+			w.Printf("L%d LIVE seed=%d nc=%d clients=%d ms=%d stop=%d\n", i, r.U64()%100000, i%2, 3+r.Intn(4), 60+r.Intn(120), i%3)
 		}
 		w.Close()
 	case "run":
